@@ -547,8 +547,48 @@ def _incremental_line(tgt, fi):
     return total == 0
 
 
+SANITISERS = ("utils.oneline", "utils.quoted", "utils.quoted_bytes")
+
+
+def r7_8(ctx):
+    """Every rule that lets a dynamic value into a response line trusts these helpers to return something with no CR and no
+    LF in it (R7.2 quoted strings, R7.4 NO/BAD texts).  They earn that trust only while each of the two characters is
+    removed on its own: a helper that replaces the *pair* CRLF lets a lone LF (or a lone CR) through, and a mailbox name or
+    an error text given as a literal with a bare LF then splits the response in two - the second line can be made to read
+    like a tagged reply."""
+    p = ctx.p
+    n = 0
+    for key in SANITISERS:
+        if key not in p.functions:
+            continue
+        fi = p.func(key)
+        ctx.analysed(fi)
+        n += 1
+        singles = set()
+        for c in calls_in(fi.node):
+            if call_name(c) == "replace" and len(c.args) == 2 and isinstance(c.args[0], ast.Constant):
+                v = c.args[0].value
+                v = v.decode("latin-1") if isinstance(v, bytes) else v
+                if isinstance(v, str) and len(v) == 1:
+                    singles.add(v)
+            elif call_name(c) == "translate" or (call_name(c) == "sub" and c.args and isinstance(c.args[0], ast.Constant)):
+                pat = c.args[0].value if c.args and isinstance(c.args[0], ast.Constant) else ""
+                pat = pat.decode("latin-1") if isinstance(pat, bytes) else str(pat)
+                if "\\r" in pat or "\r" in pat:
+                    singles.add("\r")
+                if "\\n" in pat or "\n" in pat:
+                    singles.add("\n")
+        missing = [repr(ch) for ch in ("\r", "\n") if ch not in singles]
+        if missing:
+            ctx.bad("R7.8", fi.module, fi.qual, f"{fi.name}(): no replacement of a lone {missing[0]}", f"{fi.name}() no longer removes every {' and every '.join(missing)} on its own (a replacement of the pair CRLF does not): a value with a bare line break passes into a one-line response / quoted string and splits it", fi.node.lineno)
+        else:
+            ctx.ok("R7.8", where(fi), f"{fi.name}() replaces CR and LF each on its own")
+    ctx.floor("R7.8", n, 3, "CR/LF-removing helpers")
+
+
 def _run_extra(ctx):
     ctx.do(r7_4b)
+    ctx.do(r7_8)
 
 
 def run(ctx):
